@@ -16,7 +16,7 @@ func init() {
 		ID:    "C02",
 		Level: "exploration",
 		Rule: "streams built by the independent reference multiplexer from random models (1..8 PIDs: PAT, PMT PIDs announced by it, DVB SI PIDs, PES PIDs; bounded and unbounded PES; " +
-			"PSI units of 1..n sections over 1..6+ packets; pointer_field 0..n; adaptation stuffing in any packet; trailing 0xFF or exact fit; random interleaving; PMT units that start before and end after the PAT announcing them) demultiplexed with NextData; " +
+			"PSI units of 1..n sections over 1..6+ packets; pointer_field 0..n; adaptation stuffing in any packet; trailing 0xFF or exact fit; random interleaving; PMT units that start before and end after the PAT announcing them) demultiplexed with NextData (seekable and read-only readers; a quarter of the runs after an initial Rewind or in the 188+k framing); " +
 			"plus enumeration of every first-chunk and last-chunk size (thorough: every pair) of selected units; distinct = hash of the stream bytes; non-trivial = ≥2 units delivered on ≥2 PIDs or a multi-packet unit",
 		Assumptions: []string{"units are packet aligned and start with payload_unit_start; on PAT/PMT PIDs an interior section boundary never coincides with a packet boundary (ISO 13818-1 requires payload_unit_start for a section start)",
 			"the PAT unit announcing a PMT PID is complete before the final packet of that PID's first unit (stage straddle: before the first packet elsewhere)", "table contents are simple and carry the unit id (field fidelity is C13's subject)",
@@ -35,6 +35,8 @@ func init() {
 			need(m, &out, "multi_section_units", 100)
 			need(m, &out, "exhaustive_split_streams", 1000)
 			need(m, &out, "long_streams", 6)
+			need(m, &out, "streams_through_a_plain_reader", 300)
+			need(m, &out, "streams_after_an_initial_rewind", 150)
 			need(m, &out, "pmt_units_straddling_their_pat", 300)
 			need(m, &out, "streams_in_larger_framing", 100)
 			return out
@@ -253,7 +255,18 @@ func runC02(c *mon.Ctx) {
 			run.PacketSize = 188 + k
 			c.Count("streams_in_larger_framing")
 		} else {
-			run = RunDemux(s.Bytes, baseCfg("data"))
+			cfg := baseCfg("data")
+			switch i % 8 {
+			case 1, 5:
+				// a reader that can only Read: with an explicit packet size nothing may be read ahead of the packet returned
+				cfg.Reader = "plain"
+				c.Count("streams_through_a_plain_reader")
+			case 2:
+				// the application looks at the first packet (or nothing), rewinds, and then demultiplexes
+				cfg.RewindFirst = 1 + int(i/8)%2
+				c.Count("streams_after_an_initial_rewind")
+			}
+			run = RunDemux(s.Bytes, cfg)
 		}
 		checkStreamDelivery(c, "C02", "streams", i, s, m, run, true)
 		countSplits(c, s, m)
